@@ -934,6 +934,7 @@ def unmarshalWith (dec : Slice → R V) (alen : V → R (UInt16 × V)) : V → S
         let d ← data.fromR s.n
         let act ← dec d
         let (al, act') ← alen act
+        if al = 0 then .err else
         pure { n := s.n + al.toNat, acts := s.acts ++ [act'] })
       { n := 24, acts := acts0 }
     let h' ← NXActionHeader.setLength (n16 st.n) h
